@@ -10,8 +10,22 @@ import (
 	"strings"
 	"testing"
 
+	"github.com/apparentlymart/go-textseg/v15/textseg"
 	"github.com/hashicorp/hcl/v2"
 )
+
+// verifPosAt computes the line and column (in grapheme clusters, both 1-based) of a byte offset.
+func verifPosAt(src string, off int) (int, int) {
+	line, start := 1, 0
+	for i := 0; i < off && i < len(src); i++ {
+		if src[i] == '\n' {
+			line++
+			start = i + 1
+		}
+	}
+	n, _ := textseg.TokenCount([]byte(src[start:off]), textseg.ScanGraphemeClusters)
+	return line, n + 1
+}
 
 type verifRangeCase struct{ src, expr string }
 
@@ -22,6 +36,8 @@ func verifRangeCorpus() []verifRangeCase {
 		"[1, 2, a]", "{x = 1, y = a}", "{(k) = v}", "[for v in l : v]", "{for k, v in m : k => v if v}", "{for k, v in m : k => v...}",
 		"\"lit\"", "\"a${b}c\"", "\"%{ if c }yes%{ else }no%{ endif }\"", "\"%{ for x in l }${x}%{ endfor }\"", "\"%{ for k, x in l ~}${x}%{~ endfor }\"",
 		"<<EOT\nhello ${a}\nEOT", "<<-EOT\n  %{ if c }x%{ endif }\n  EOT",
+		"<<-EOT\n    foo\n  bar ${a}\n  EOT", "<<-EOT\n\u3000\u3000foo\n\u3000\u3000bar\n\u3000\u3000EOT", "<<-EOT\n\t\u00a0é${a}\n\t\u00a0x\n\tEOT",
+		"\"é${a}ü\"", "[\"日本\", a]",
 	}
 	var out []verifRangeCase
 	for _, e := range exprs {
@@ -56,6 +72,21 @@ func verifCheckRanges(src, expr string) string {
 		rng := n.Range()
 		if rng.Start.Byte < 0 || rng.End.Byte > len(src) || rng.Start.Byte > rng.End.Byte {
 			msg = fmt.Sprintf("%T has range %d-%d outside the %d-byte source", n, rng.Start.Byte, rng.End.Byte, len(src))
+			return nil
+		}
+		// line and column agree with the byte offset (columns count grapheme clusters); the
+		// Attributes and Blocks collections have no range of their own
+		_, isColl1 := n.(Attributes)
+		_, isColl2 := n.(Blocks)
+		if isColl1 || isColl2 {
+			return nil
+		}
+		if l, c := verifPosAt(src, rng.Start.Byte); l != rng.Start.Line || c != rng.Start.Column {
+			msg = fmt.Sprintf("%T starts at byte %d, which is line %d column %d, but is reported at line %d column %d", n, rng.Start.Byte, l, c, rng.Start.Line, rng.Start.Column)
+			return nil
+		}
+		if l, c := verifPosAt(src, rng.End.Byte); l != rng.End.Line || c != rng.End.Column {
+			msg = fmt.Sprintf("%T ends at byte %d, which is line %d column %d, but is reported at line %d column %d", n, rng.End.Byte, l, c, rng.End.Line, rng.End.Column)
 			return nil
 		}
 		text := src[rng.Start.Byte:rng.End.Byte]
